@@ -46,6 +46,12 @@ func c07PairSearch(p *load.Prog, r *oblig.Run) {
 		}
 		if fn.Name() == "Equals" || fn.Name() == "DeepEqual" || fn.Name() == "DeepEqualNodes" {
 			fns = append(fns, fn)
+			continue
+		}
+		// helpers the equality relations delegate a pair search to: called from an equality relation and comparing
+		// elements with Equals / DeepEqual themselves
+		if calledFromEquality(p, fn) && comparesElements(fn) {
+			fns = append(fns, fn)
 		}
 	}
 	sort.Slice(fns, func(i, j int) bool { return fns[i].String() < fns[j].String() })
@@ -59,6 +65,12 @@ func c07PairSearch(p *load.Prog, r *oblig.Run) {
 				ia, ok := ins.(*ssa.IndexAddr)
 				if !ok {
 					continue
+				}
+				// bookkeeping slices (flags, counters) kept alongside a list are not a second list of nodes
+				if sl, isSl := ia.X.Type().Underlying().(*types.Slice); isSl {
+					if _, isBasic := sl.Elem().Underlying().(*types.Basic); isBasic {
+						continue
+					}
 				}
 				for _, l := range loops {
 					if ia.Index == l.cur && ia.X != l.slice {
@@ -230,4 +242,37 @@ func c07CopyWalksAll(p *load.Prog, r *oblig.Run) {
 	if n == 0 {
 		r.Add("R07.h", "callback", p.Pos(dc.Pos()), "callback of DeepCopy").Unknown("DeepCopy has no callback with two results")
 	}
+}
+
+// calledFromEquality: fn is called (statically) from a function named Equals, DeepEqual or DeepEqualNodes.
+func calledFromEquality(p *load.Prog, fn *ssa.Function) bool {
+	for _, caller := range p.Repo {
+		if pkgPathOf(caller) != load.PkgRoot {
+			continue
+		}
+		if n := caller.Name(); n != "Equals" && n != "DeepEqual" && n != "DeepEqualNodes" {
+			continue
+		}
+		if len(su.CallsTo(caller, fn)) > 0 {
+			return true
+		}
+	}
+	return false
+}
+
+// comparesElements: fn calls Equals or DeepEqual.
+func comparesElements(fn *ssa.Function) bool {
+	for _, c := range su.Calls(fn) {
+		cc := c.Common()
+		name := ""
+		if cc.IsInvoke() {
+			name = cc.Method.Name()
+		} else if cal := cc.StaticCallee(); cal != nil {
+			name = cal.Name()
+		}
+		if name == "Equals" || name == "DeepEqual" {
+			return true
+		}
+	}
+	return false
 }
